@@ -55,7 +55,7 @@ try:
     if confirmed:
         # 3. private copy of /verif whose harness depends on the mutated worktree
         v = base + "/verif"
-        sh("rsync -a --exclude .git --exclude .scratch --exclude replays --exclude evidence --exclude seeded /verif/ %s/" % v)
+        sh("rsync -a --exclude .git --exclude .scratch --exclude replays --exclude evidence --exclude seeded --exclude benign --exclude 'harness/target-*' /verif/ %s/" % v)
         ct = open(v + "/harness/Cargo.toml").read().replace('path = "/repo"', 'path = "%s"' % repo)
         open(v + "/harness/Cargo.toml", "w").write(ct)
         detected = {}
